@@ -31,6 +31,7 @@ K_INH_CREATE_CLEANUP = 'C06:inheritable-create-cleanup-fails'
 K_LAZY_EXTRA = 'C06:lazy-set-extra-raises-after-columns-cached'
 K_SET_FK_OBJ = 'C06:set-fk-by-object-written-before-failing-update'
 K_SET_PARENT_COL = 'C06:inheritable-set-parent-column-written-before-failing-update'
+K_TX_DESTROYED_STALE = 'C06:rolled-back-destroySelf-cascaded-instance-keeps-changed-value'
 
 META = {
     'extractors': ['pymain', 'pycreate', 'pyinherit', 'pydestroy'],
@@ -80,7 +81,8 @@ META = {
                  'instances unreachable after a failed constructor are dropped from the model state',
                  'signal listeners, cacheValues=False, transactions (autoCommit off) are outside the model',
                  'an exception raised by the application\'s own property setter inside set() is outside the property (counted, not reported)',
-                 'after every failed call the oracle also checks that each held live instance is still the very object the cache hands out (tryGet is inst, both directions) and re-fetches it with get()'],
+                 'after every failed call the oracle also checks that each held live instance is still the very object the cache hands out (tryGet is inst, both directions) and re-fetches it with get()',
+                 'configurations beyond the model, oracle only: connections built from URI option strings (autoCommit=0/1/false, cache=1: all equivalent to the default on SQLite); the same calls inside a transaction on a FILE database (own raw connection, transaction cache culled once), rolled back when the call raises: tables and link rows are what they were and every attribute the application reads from a held instance equals the row'],
     'assumptions': ['translated source: values are identified across from_python / to_python (the hand model has one value per column); every column has both validators; '
                     '_SO_createValues is a dict up to order; the inheritable create is tied in its own world with SQLObject._create and _parent.destroySelf() as interface '
                     'calls equal to the hand trees (each of which is proved equal to its translated source separately); create is tied for keyword lists of plain columns '
@@ -299,15 +301,62 @@ def inj_class():
 class Env(object):
     """one rebuilt state: fresh connection, tables, held instances"""
 
-    def __init__(self, vi):
+    def __init__(self, vi, copts=None, path=None):
         self.v = variant(vi)
-        self.conn = inj_class()(':memory:')
+        self.copts = dict(copts or {})
+        # built the way connectionForURI builds it: option values are the STRINGS of the URI's query part
+        self.conn = inj_class()._connectionFromParams(None, None, None, None, path or '/:memory:', dict(self.copts))
         for cls in self.v.classes:
             cls._connection = self.conn
         for cls in self.v.classes:
             cls.createTable(ifNotExists=True)
-        self.raw = self.conn._memoryConn
+        self.raw = sqlite3.connect(path) if path else self.conn._memoryConn
         self.held = {}      # (c, id) -> instance, the application's references
+        self.ckw = {}       # extra constructor keywords (connection=<transaction> in transaction mode)
+        self.trans = None
+
+    # ------------------------------------------------------------- transaction mode
+    def begin(self, cull=True):
+        """open a transaction, fetch every held instance through it (these become the application's references)
+        and let the transaction's cache cull once: every second instance is then only weakly cached"""
+        v = self.v
+        self.main_held = dict(self.held)
+        self.trans = self.conn.transaction()
+        parents = {CLS[n].get('parent') for n in v.order}
+        held = {}
+        for (c, i), o in sorted(self.held.items()):
+            if o.sqlmeta._obsolete or v.order[c] in parents:
+                continue
+            t = v.classes[c].get(i, connection=self.trans)
+            held[(c, i)] = t
+            p = getattr(t, '_parent', None)
+            while p is not None:
+                held[(v.classes.index(type(p)), p.id)] = p
+                p = getattr(p, '_parent', None)
+        self.held = held
+        self.ckw = {'connection': self.trans}
+        if cull:
+            for sub in self.trans.cache.allSubCaches():
+                sub.cull()
+
+    def close(self):
+        if self.trans is not None:
+            try:
+                self.trans.rollback()
+            except Exception:
+                pass
+        try:
+            self.raw.close()
+        except Exception:
+            pass
+
+    def end(self, out):
+        """what the application does: roll back when the call raised, commit otherwise; then go on with a new transaction"""
+        if out == 'ok':
+            self.trans.commit()
+        else:
+            self.trans.rollback()
+            self.trans.begin()
 
     # ------------------------------------------------------------- running operations
     def pyval(self, v):
@@ -347,14 +396,14 @@ class Env(object):
                 self.held[(c, i)].syncUpdate()
             elif name == 'create':
                 _, c, missing, kw, ex = op
-                obj = v.classes[c](**self.kwargs(c, kw, ex))
+                obj = v.classes[c](**dict(self.kwargs(c, kw, ex), **self.ckw))
                 self.held[(c, obj.id)] = obj
             elif name == 'createChild':
                 _, c, pkw, ckw = op
                 p = v.idx[CLS[v.order[c]]['parent']]
                 d = self.kwargs(p, [x for x in pkw if v.colnames[p][x[0]] != 'childName'])
                 d.update(self.kwargs(c, ckw))
-                obj = v.classes[c](**d)
+                obj = v.classes[c](**dict(d, **self.ckw))
                 self.held[(c, obj.id)] = obj
             elif name == 'createChain':
                 _, levels, given = op
@@ -362,7 +411,7 @@ class Env(object):
                 for c, j, x in given:
                     d[v.colnames[c][j]] = self.pyval(x)
                 c = levels[0][0]
-                obj = v.classes[c](**d)
+                obj = v.classes[c](**dict(d, **self.ckw))
                 self.held[(c, obj.id)] = obj
             elif name == 'destroy':
                 _, c, i = op
@@ -370,6 +419,7 @@ class Env(object):
             elif name == 'link':
                 _, t, a, b = op
                 self.raw.execute('INSERT INTO %s (%s, %s) VALUES (%d, %d)' % (LINKS[t] + (a, b)))
+                self.raw.commit()
             elif name == 'forget':
                 _, c, i = op
                 self.held.pop((c, i), None)
@@ -419,6 +469,8 @@ class Env(object):
         for t, lk in enumerate(LINKS):
             for a, b in self.raw.execute('SELECT %s, %s FROM %s' % (lk[1], lk[2], lk[0])).fetchall():
                 links.append((t, a, b))
+        if self.trans is not None:      # transaction mode: only what is stored matters here
+            return {'T': sorted(tabs), 'L': sorted(links), 'I': [], 'R': []}
         insts = sorted(self.inst_state(o) for o in self.instances())
         reg = sorted((c, o.id) for c, cls in enumerate(v.classes) for o in self.conn.cache.getAll(cls))
         return canon_dump({'T': sorted(tabs), 'L': sorted(links), 'I': insts, 'R': reg})
@@ -699,17 +751,92 @@ def classify(v, op, t, probs, after):
 
 
 # ----------------------------------------------------------------------------- cases
-def build(vi, history):
-    env = Env(vi)
+def build(vi, history, copts=None, path=None):
+    env = Env(vi, copts, path)
     for h in history:
         env.run(h)
     return env
 
 
-def trials_for(vi, history, op):
+# ----------------------------------------------------------------------------- transaction mode (file database)
+_tmp = []
+
+
+def tmp_path():
+    """a fresh database file outside /repo and /verif (removed at exit)"""
+    import atexit
+    import shutil
+    import tempfile
+    if not _tmp:
+        base = '/dev/shm' if os.path.isdir('/dev/shm') and os.access('/dev/shm', os.W_OK) else None
+        d = tempfile.mkdtemp(prefix='c06_', dir=base)
+        atexit.register(shutil.rmtree, d, True)
+        _tmp.extend([d, 0])
+    _tmp[1] += 1
+    return os.path.join(_tmp[0], 'db%d.sqlite' % _tmp[1])
+
+
+TX_OPTS = {'timeout': '0.05'}
+
+
+def tx_trials(vi, history, op):
+    """the same call inside a transaction on a FILE database (the transaction has a raw connection of its own);
+    when it raises the application rolls back.  Clean, then an error at every statement."""
+    res = []
+    n = None
+    for k in [None] + list(range(1, 40)):
+        if k is not None and k > n:
+            break
+        path = tmp_path()
+        env = build(vi, history, TX_OPTS, path)
+        before = env.dump()
+        env.begin()
+        out, log = env.run(op, k)
+        env.end(out)
+        if k is None:
+            n = len(log)
+        res.append(dict(k=k, kind='o', out=out, log=log, env=env, before=before, n=n, path=path))
+    return res
+
+
+def oracle_tx(env, before, out):
+    """C06 for a call in a transaction that is rolled back because the call raised: the database is what it was,
+    and whatever the application reads from an instance it holds is what the row holds"""
+    if out == 'ok':
+        return []
+    probs = []
+    after = env.dump()
+    if after['T'] != before['T']:
+        probs.append('after the roll back the tables differ: %s' % diff(before['T'], after['T']))
+    if after['L'] != before['L']:
+        probs.append('after the roll back the link rows differ: %s' % diff(before['L'], after['L']))
+    rows = {(c, i): vals for c, i, vals in after['T']}
+    seen = set()
+    for side, held in (('transaction', env.held), ('connection', env.main_held)):
+        for (c, i), o in sorted(held.items()):
+            if id(o) in seen or (c, i) not in rows:
+                continue
+            seen.add(id(o))
+            pend = getattr(o, '_SO_createValues', None) or {}
+            for j, name in enumerate(env.v.colnames[c]):
+                if name in pend:
+                    continue
+                try:
+                    x = canon_val(getattr(o, name))
+                except Exception as e:
+                    probs.append('reading %s#%d.%s (%s side) raises %s' % (env.v.order[c], i, name, side, type(e).__name__))
+                    break
+                if x != rows[(c, i)][j]:
+                    probs.append('%s#%d (%s side%s) shows %s=%r, the row has %r'
+                                 % (env.v.order[c], i, side, ', destroyed inside the transaction' if o.sqlmeta._obsolete else '',
+                                    name, x, rows[(c, i)][j]))
+    return probs
+
+
+def trials_for(vi, history, op, copts=None):
     """run the case on the implementation: clean, then every k.  yields dicts"""
     v = variant(vi)
-    env = build(vi, history)
+    env = build(vi, history, copts)
     bd, bs = env.dump(), env.snapshot()
     out, log = env.run(op)
     n = len(log)
@@ -719,7 +846,7 @@ def trials_for(vi, history, op):
         kinds.append('i')
     for kind in kinds:
         for k in range(1, n + 1):
-            e2 = build(vi, history)
+            e2 = build(vi, history, copts)
             bd2, bs2 = e2.dump(), e2.snapshot()
             o2, l2 = e2.run(op, k, kind)
             res.append(dict(k=k, kind=kind, out=o2, log=l2, env=e2, before=bd2, snap=bs2, n=n, clean_out=out))
@@ -1058,7 +1185,7 @@ def run(ctx):
     for vi in range(len(ORDERS)):
         for name, hist, op in directed(vi):
             cases.append(('directed:' + name, vi, hist, op))
-    nrand = ctx.budget(700, 9000)
+    nrand = ctx.budget(600, 9000)
     for i in range(nrand):
         vi = i % len(ORDERS)
         hist, op = random_case(ctx, vi)
@@ -1067,10 +1194,16 @@ def run(ctx):
     lines = []
     expect = []     # (line index, trial, case descriptor)
     seen_keys = set()
-    for cname, vi, hist, op in cases:
+    # the connection as connectionForURI builds it from these query strings: all equivalent to the default
+    COPTS = [{}, {'autoCommit': '0'}, {'autoCommit': '1'}, {'cache': '1', 'autoCommit': 'false'}]
+    fixed = sum(1 for c in cases if c[0] != 'random')
+    for cidx, (cname, vi, hist, op) in enumerate(cases):
         v = variant(vi)
+        copts = COPTS[cidx % len(COPTS)] if cname == 'random' else COPTS[(cidx // 2) % 2]
+        if (cname != 'random' and vi == 0) or (cname == 'random' and cidx % 12 == 0):
+            run_tx_case(ctx, cname, vi, hist, op, seen_keys)
         try:
-            trials = trials_for(vi, hist, op)
+            trials = trials_for(vi, hist, op, copts)
         except Exception as e:   # the harness itself could not build the state
             ctx.note('case %s could not be built: %r' % (cname, e))
             continue
@@ -1081,7 +1214,8 @@ def run(ctx):
         for t in trials:
             lines.append('load')
             lines.append(op_line(op, t['k'], t['kind']))
-            desc = {'name': cname, 'variant': vi, 'history': jsonable(hist), 'op': jsonable(op), 'k': t['k'], 'kind': t['kind']}
+            desc = {'name': cname, 'variant': vi, 'history': jsonable(hist), 'op': jsonable(op), 'k': t['k'], 'kind': t['kind'],
+                    'copts': copts}
             expect.append((len(lines) - 1, t, desc, v))
             env = t['env']
             probs = oracle(env, t['before'], t['snap'], t['out'])
@@ -1137,10 +1271,50 @@ def run(ctx):
                         'noop' if quiet else 'changed', 'noop' if same else 'changed')
 
 
+def run_tx_case(ctx, cname, vi, hist, op, seen_keys):
+    try:
+        trials = tx_trials(vi, hist, op)
+    except Exception as e:
+        ctx.note('transaction case %s could not be built: %r' % (cname, e))
+        return
+    for t in trials:
+        desc = {'name': cname, 'variant': vi, 'history': jsonable(hist), 'op': jsonable(op), 'k': t['k'], 'kind': 'o', 'tx': True}
+        probs = oracle_tx(t['env'], t['before'], t['out'])
+        ctx.case(('tx', vi, repr(hist), repr(op), t['k']), nontrivial=(t['out'] != 'ok'),
+                 kind='tx:%s/%s%s' % (op[0], t['out'], '' if t['k'] is None else '/inj'))
+        if probs and t['out'] != 'AttributeError':
+            key = 'C06:unexpected:in-transaction-rolled-back:%s:%s' % (op[0], t['out'])
+            if op[0] == 'destroy' and all('destroyed inside the transaction' in p for p in probs):
+                # the roll back does not reach instances that destroySelf already dropped from the transaction's cache
+                key = K_TX_DESTROYED_STALE
+            if key not in seen_keys or len(seen_keys) < 40:
+                seen_keys.add(key)
+                ctx.oracle_fail(key, '%s in a transaction raised %s%s, the application rolled back, but: %s'
+                                % (op[0], t['out'], '' if t['k'] is None else ' (error injected at statement %d of %d)' % (t['k'], t['n']),
+                                   '; '.join(probs[:4])), desc)
+        t['env'].close()
+        t['env'] = None
+        try:
+            os.unlink(t['path'])
+        except OSError:
+            pass
+
+
 def replay(case):
     sqlo.setup()
     vi, hist, op = case['variant'], case['history'], case['op']
-    env = build(vi, hist)
+    if case.get('tx'):
+        env = build(vi, hist, TX_OPTS, tmp_path())
+        before = env.dump()
+        env.begin()
+        out, log = env.run(op, case.get('k'))
+        env.end(out)
+        probs = oracle_tx(env, before, out)
+        text = ['FILE database, call inside a transaction, rolled back when it raises', 'history: %s' % (hist,),
+                'operation: %s  inject=%s' % (op, case.get('k')), 'outcome: %s' % out, 'statements: %s' % (log,)]
+        text += ['PROPERTY FAILS: ' + p for p in probs] or ['property holds for this case']
+        return (not probs), '\n'.join(text)
+    env = build(vi, hist, case.get('copts'))
     bd, bs = env.dump(), env.snapshot()
     out, log = env.run(op, case.get('k'), case.get('kind', 'o'))
     probs = oracle(env, bd, bs, out)
